@@ -1,5 +1,6 @@
-(** Extraction of the Layer W model for the correspondence check (ExtrOcamlBasic only). *)
+(** Extraction of the Layer W model and monitors for the correspondence check (ExtrOcamlBasic only). *)
 From Coq Require Import Extraction ExtrOcamlBasic ZArith List.
-From Stk Require Import Lib.U Gen.SrcWaker W.Waker.
+From Stk Require Import Lib.U Gen.SrcWaker W.Waker W.Monitors.
 Extraction Language OCaml.
-Extraction "extracted/w_model.ml" wstep wrun winit enabled finished ordering_ok Z.of_nat Z.to_nat.
+Extraction "extracted/w_model.ml" wstep wrun winit enabled finished ordering_ok
+  C11_ok C12_ok C13_ok C14_ok flatten Z.of_nat Z.to_nat.
